@@ -256,7 +256,7 @@ static double solid_angle_sum(const Mesh& m, const Eigen::Vector3d& p) {
     }
     return total / (4.0 * M_PI);
 }
-static MeshAudit audit_mesh(const Mesh& m, Evaluator& ev, const Region<3>& rg, double minfeat, unsigned seed) {
+static MeshAudit audit_mesh(const Mesh& m, Evaluator& ev, const Region<3>& rg, double minfeat, unsigned seed, int probes = 60) {
     MeshAudit a;
     a.tris = m.branes.size(); a.verts = m.verts.size();
     std::vector<char> used(m.verts.size(), 0);
@@ -282,7 +282,7 @@ static MeshAudit audit_mesh(const Mesh& m, Evaluator& ev, const Region<3>& rg, d
     }
     std::mt19937 rng(seed);
     std::uniform_real_distribution<double> d01(0.0, 1.0);
-    for (int k = 0; k < 60; ++k) {
+    for (int k = 0; k < probes; ++k) {
         Eigen::Vector3d p;
         for (int c = 0; c < 3; ++c) p(c) = rg.lower(c) + (rg.upper(c) - rg.lower(c)) * (0.04 + 0.92 * d01(rng));
         float f = ev.value(p.cast<float>());
@@ -633,6 +633,53 @@ int main(int argc, char** argv) {
                     out(gp); out(gr);
                     out("GV pts=" + std::to_string(pts) + " bad=" + std::to_string(bad) + info);
                 }
+            }
+            else if (c == "bigpush") {
+                // bigpush nspheres seed : C05 at scale: a balanced union of many small spheres (a deck with far more
+                // than 2^16 clause ids), specialised by box pushes, nested pushes and point pushes around some of the
+                // spheres; every specialised tape must answer bit-identically to the base tape inside its region
+                int ns = std::stoi(t[1]); unsigned seed = (unsigned)std::stoul(t[2]);
+                std::mt19937 rng(seed);
+                std::uniform_real_distribution<float> U(-40.0f, 40.0f);
+                std::vector<Tree> level;
+                std::vector<Eigen::Vector3f> centres;
+                for (int i = 0; i < ns; ++i) {
+                    Eigen::Vector3f cc(U(rng), U(rng), U(rng));
+                    centres.push_back(cc);
+                    Tree dx = Tree::X() - Tree(cc.x()), dy = Tree::Y() - Tree(cc.y()), dz = Tree::Z() - Tree(cc.z());
+                    level.push_back(sqrt(dx * dx + dy * dy + dz * dz) - Tree(0.3f));
+                }
+                while (level.size() > 1) {
+                    std::vector<Tree> next;
+                    for (size_t i = 0; i + 1 < level.size(); i += 2) next.push_back(min(level[i], level[i + 1]));
+                    if (level.size() & 1) next.push_back(level.back());
+                    level.swap(next);
+                }
+                Evaluator ev(level[0]);
+                auto base = ev.getDeck()->tape;
+                long pts = 0, bad = 0; std::string info;
+                for (int q = 0; q < 24; ++q) {
+                    int idx = (q < 8) ? (ns - 1 - q * 7) : (int)(rng() % ns);      // late spheres have the highest clause ids
+                    if (idx < 0) idx = 0;
+                    Eigen::Vector3f cc = centres[idx];
+                    Eigen::Vector3f lo = cc.array() - 0.5f, hi = cc.array() + 0.5f;
+                    auto r1 = ev.intervalAndPush(lo, hi, base);
+                    Eigen::Vector3f lo2 = cc.array() - 0.2f, hi2 = cc.array() + 0.2f;
+                    auto r2 = ev.intervalAndPush(lo2, hi2, r1.second);
+                    std::fesetround(FE_TONEAREST);
+                    for (int k = 0; k < 9; ++k) {
+                        Eigen::Vector3f p = cc + 0.19f * Eigen::Vector3f(((k & 1) ? 1.f : -1.f), ((k & 2) ? 1.f : -1.f), ((k & 4) ? 1.f : -1.f)) * (k == 8 ? 0.f : 1.f);
+                        float vb = ev.value(p, *base), v1 = ev.value(p, *r1.second), v2 = ev.value(p, *r2.second);
+                        auto vp = ev.valueAndPush(p, r1.second);
+                        float v3 = ev.value(p, *vp.second);
+                        pts += 4;
+                        if (memcmp(&vb, &v1, 4) || memcmp(&vb, &v2, 4) || memcmp(&vb, &vp.first, 4) || memcmp(&vb, &v3, 4)) {
+                            if (!bad) info = " first=sphere" + std::to_string(idx) + " base=" + hex32(vb) + " box=" + hex32(v1) + " nested=" + hex32(v2) + " point=" + hex32(v3);
+                            ++bad;
+                        }
+                    }
+                }
+                out("BP clauses=" + std::to_string(ev.getDeck()->num_clauses) + " pts=" + std::to_string(pts) + " bad=" + std::to_string(bad) + info);
             }
             else if (c == "pushpt") {
                 // pushpt h x y z : valueAndPush at a point
@@ -1367,7 +1414,7 @@ int main(int argc, char** argv) {
                 if (!mesh) { out("MA null"); }
                 else {
                     Evaluator ev(tr);
-                    MeshAudit a = audit_mesh(*mesh, ev, rg, st.min_feature, seed);
+                    MeshAudit a = audit_mesh(*mesh, ev, rg, st.min_feature, seed, t.size() > 14 ? std::stoi(t[14]) : 60);
                     std::ostringstream o;
                     o << "MA tris=" << a.tris << " verts=" << a.verts << " degenerate=" << a.degenerate << " bad_index=" << a.bad_index
                       << " unreferenced=" << a.unreferenced << " unbalanced=" << a.unbalanced_edges << " nonmanifold=" << a.nonmanifold_edges
